@@ -158,6 +158,15 @@ Example C19_ex_installed_later :
   end.
 Proof. vm_compute. reflexivity. Qed.
 
+From Coq Require Import String.
+(* ---- structural pins (srcfacts): every datagram leaves through the one routine that consults the
+        blocklist, and the blocklist is consulted on the inbound path and by the lookup filter ---- *)
+Example C19_pin_single_write_routine :
+  socket_writeto_callers = ["writeToNode"]%string /\ socket_writeto_callers_ok = true /\
+  write_to_node_callers = ["reply"; "sendError"; "transactionQuerySender"]%string /\
+  blocklist_lookup_callers = ["TraversalNodeFilter"; "ipBlocked"; "serve"; "writeToNode"]%string.
+Proof. repeat split. Qed.
+
 Print Assumptions C19_no_send_to_blocked.
 Print Assumptions C19_blocked_inert.
 Print Assumptions C19_blocked_inert_total.
